@@ -202,8 +202,43 @@ class _Canon(ast.NodeTransformer):
                 return loop
         return node
 
+    def visit_Call(self, node):
+        self.generic_visit(node)
+        # map(f, xs) -> (f(x) for x in xs) ;  list(<generator expression>) -> [ ... ]
+        if isinstance(node.func, ast.Name) and node.func.id == "map" and len(node.args) == 2 and \
+                not node.keywords and isinstance(node.args[0], (ast.Name, ast.Attribute)):
+            var = "_m%d" % getattr(node, "lineno", 0)
+            elt = ast.Call(func=node.args[0], args=[ast.Name(id=var, ctx=ast.Load())], keywords=[])
+            gen = ast.GeneratorExp(elt=elt, generators=[ast.comprehension(
+                target=ast.Name(id=var, ctx=ast.Store()), iter=node.args[1], ifs=[], is_async=0)])
+            return ast.fix_missing_locations(ast.copy_location(gen, node))
+        if isinstance(node.func, ast.Name) and node.func.id == "list" and len(node.args) == 1 and \
+                not node.keywords and isinstance(node.args[0], ast.GeneratorExp):
+            g = node.args[0]
+            return ast.copy_location(ast.ListComp(elt=g.elt, generators=g.generators), node)
+        return node
+
     def visit_For(self, node):
         self.generic_visit(node)
+        # for k in d: d[k] = v   (v a name, constant or attribute chain that does not mention k)
+        #     ->  d.update({}.fromkeys(d, v))        every key of d is mapped to the one value
+        it0 = node.iter
+        if isinstance(it0, ast.Call) and isinstance(it0.func, ast.Attribute) and it0.func.attr == "keys" and \
+                not it0.args and not it0.keywords:
+            it0 = it0.func.value
+        if isinstance(node.target, ast.Name) and not node.orelse and len(node.body) == 1 and _simple_ref(it0) and \
+                not isinstance(it0, ast.Constant) and isinstance(node.body[0], ast.Assign) and \
+                len(node.body[0].targets) == 1 and isinstance(node.body[0].targets[0], ast.Subscript):
+            t, v = node.body[0].targets[0], node.body[0].value
+            if ast.unparse(t.value) == ast.unparse(it0) and isinstance(t.slice, ast.Name) and \
+                    t.slice.id == node.target.id and _simple_ref(v) and \
+                    not any(isinstance(n, ast.Name) and n.id == node.target.id for n in ast.walk(v)):
+                import copy as _copy
+                d = _copy.deepcopy(it0)
+                call = ast.Call(func=ast.Attribute(value=d, attr="update", ctx=ast.Load()), args=[ast.Call(
+                    func=ast.Attribute(value=ast.Dict(keys=[], values=[]), attr="fromkeys", ctx=ast.Load()),
+                    args=[_copy.deepcopy(it0), v], keywords=[])], keywords=[])
+                return ast.fix_missing_locations(ast.copy_location(ast.Expr(value=call), node))
         # for x in (a, b, c): body  ->  body[x := a]; body[x := b]; body[x := c]     (a, b, c names or attribute chains)
         it = node.iter
         if isinstance(it, (ast.Tuple, ast.List)) and 0 < len(it.elts) <= 8 and isinstance(node.target, ast.Name) and \
@@ -985,6 +1020,57 @@ def _inline_in_function(fn, helpers):
     return changed
 
 
+def _append_tree(stmts, name):
+    """the expression appended to list `name` when stmts is a tree of if/else whose leaves are one
+    `name.append(<expr>)` each; else None"""
+    if len(stmts) != 1:
+        return None
+    st = stmts[0]
+    if isinstance(st, ast.Expr) and isinstance(st.value, ast.Call) and isinstance(st.value.func, ast.Attribute) and \
+            st.value.func.attr == "append" and isinstance(st.value.func.value, ast.Name) and \
+            st.value.func.value.id == name and len(st.value.args) == 1 and not st.value.keywords:
+        return st.value.args[0]
+    if isinstance(st, ast.If) and st.orelse:
+        a, b = _append_tree(st.body, name), _append_tree(st.orelse, name)
+        if a is not None and b is not None:
+            return ast.IfExp(test=st.test, body=a, orelse=b)
+    return None
+
+
+def _loops_to_comprehensions(block):
+    """`L = []` directly followed by `for T in IT: L.append(E)` (E possibly chosen by if/else)  ->  `L = [E for T in IT]`"""
+    for st in block:
+        for fld in ("body", "orelse", "finalbody"):
+            sub = getattr(st, fld, None)
+            if isinstance(sub, list) and sub and isinstance(sub[0], ast.stmt):
+                setattr(st, fld, _loops_to_comprehensions(sub))
+        if isinstance(st, ast.Try):
+            for h in st.handlers:
+                h.body = _loops_to_comprehensions(h.body)
+    out = []
+    i = 0
+    while i < len(block):
+        st = block[i]
+        nxt = block[i + 1] if i + 1 < len(block) else None
+        if isinstance(st, ast.Assign) and len(st.targets) == 1 and isinstance(st.targets[0], ast.Name) and \
+                (isinstance(st.value, ast.List) and not st.value.elts or
+                 isinstance(st.value, ast.Call) and ast.unparse(st.value) == "list()") and \
+                isinstance(nxt, ast.For) and not nxt.orelse:
+            name = st.targets[0].id
+            e = _append_tree(nxt.body, name)
+            if e is not None and not any(isinstance(n, ast.Name) and n.id == name
+                                         for x in (e, nxt.iter, nxt.target) for n in ast.walk(x)):
+                comp = ast.ListComp(elt=e, generators=[ast.comprehension(target=nxt.target, iter=nxt.iter, ifs=[],
+                                                                         is_async=0)])
+                new = ast.Assign(targets=[ast.Name(id=name, ctx=ast.Store())], value=comp, lineno=nxt.lineno)
+                out.append(ast.fix_missing_locations(ast.copy_location(new, nxt)))
+                i += 2
+                continue
+        out.append(st)
+        i += 1
+    return out
+
+
 def canonicalise_program(trees):
     """whole-program part of the canonical form: helper inlining, temporaries, early exits"""
     if os.environ.get("MABSTAT_NO_INLINE") != "1":
@@ -994,6 +1080,7 @@ def canonicalise_program(trees):
     for tree in trees.values():
         if os.environ.get("MABSTAT_NO_INLINE") != "1":
             _Canon().visit(tree)
+            tree.body = _loops_to_comprehensions(tree.body)
             ast.fix_missing_locations(tree)
             for n in ast.walk(tree):
                 if isinstance(n, (ast.FunctionDef, ast.AsyncFunctionDef)):
@@ -1231,7 +1318,10 @@ class Program:
     def method(self, cls_name, meth) -> FunctionInfo:
         c = self.cls(cls_name)
         if meth not in c.methods:
-            raise AnalysisError("anchored method %s.%s not found" % (cls_name, meth))
+            inherited = c.resolve(meth)         # the class may simply inherit it: that is then its behaviour
+            if inherited is None:
+                raise AnalysisError("anchored method %s.%s not found" % (cls_name, meth))
+            return inherited
         return c.methods[meth]
 
     def function(self, module, name) -> FunctionInfo:
